@@ -76,15 +76,11 @@ type Case struct {
 // random generation
 
 type gctx struct {
-	top       bool // directly in the top-level body
-	async     bool
-	loop      int
-	yieldInt  bool // the value of a yield expression is an integer (driver-supplied)
-	inner     int  // nesting of inner generators
-	noReenter bool
-	allowBad  bool // a top-level yield* of a non-iterable may be generated
-	inFinally bool // inside a finally block: no yield* (recorded finding C09-N3: a failure raised while return() runs the block)
-	quiet     bool // nothing that can throw or suspend (finally block of try/catch/finally: recorded finding A)
+	top      bool // directly in the top-level body
+	async    bool
+	loop     int
+	yieldInt bool // the value of a yield expression is an integer (driver-supplied)
+	inner    int  // nesting of inner generators
 }
 
 type gen struct {
@@ -140,7 +136,7 @@ func (g *gen) yieldOperand(c gctx, d int) *Exp {
 }
 
 func (g *gen) starAllowed(c gctx) bool {
-	if c.async && c.inner == 0 || c.inFinally {
+	if c.async && c.inner == 0 {
 		return false
 	}
 	return c.inner < 2
@@ -199,17 +195,11 @@ func (g *gen) hand() *Hand {
 func (g *gen) src(c gctx, d int, star bool) *Src {
 	r := g.r
 	k := r.Pick(6, 3, 1)
-	if k == 2 && (star && c.top && !c.async && !c.allowBad || c.inFinally) {
-		k = 1
-	}
 	switch k {
 	case 0:
-		ic := gctx{inner: c.inner + 1, noReenter: c.noReenter, async: c.async, inFinally: c.inFinally}
+		ic := gctx{inner: c.inner + 1, async: c.async}
 		if star {
 			ic.yieldInt = c.yieldInt
-			if c.top && !c.async {
-				ic.noReenter = true // calls on G from inside a delegate of G: recorded finding, replayed from the corpus
-			}
 			g.tag("ystar-generator")
 		} else {
 			g.tag("forof-generator")
@@ -223,15 +213,6 @@ func (g *gen) src(c gctx, d int, star bool) *Src {
 			g.tag("forof-hand")
 		}
 		h := g.hand()
-		if c.inFinally { // only well-behaved iterators inside finally blocks (C09-N4)
-			h.BadAt = -1
-			h.BadBeh = ""
-			for _, f := range []*string{&h.Thr, &h.Rtn} {
-				if *f == "T" || *f == "N" {
-					*f = "D"
-				}
-			}
-		}
 		return &Src{K: "hand", H: h}
 	default:
 		g.tag("not-iterable")
@@ -255,34 +236,8 @@ func (g *gen) block(c gctx, d int, n int) *Stmt {
 	return s
 }
 
-func (g *gen) quietStmt(c gctx, d int) *Stmt {
-	r := g.r
-	qe := func() *Exp {
-		if r.Bool() {
-			return &Exp{K: "add", A: &Exp{K: "var", X: r.Intn(3)}, B: &Exp{K: "const", Z: int64(r.Intn(9))}}
-		}
-		return &Exp{K: "arr", A: &Exp{K: "var", X: r.Intn(4)}, B: &Exp{K: "const", Z: int64(r.Intn(9))}}
-	}
-	switch r.Pick(3, 3, 2, 1) {
-	case 0:
-		return &Stmt{K: "log", E: qe()}
-	case 1:
-		return &Stmt{K: "assign", X: r.Intn(3), E: &Exp{K: "add", A: &Exp{K: "var", X: r.Intn(3)}, B: &Exp{K: "const", Z: int64(r.Intn(9))}}}
-	case 2:
-		return &Stmt{K: "loglocals"}
-	default:
-		if d > 0 {
-			return &Stmt{K: "if", E: &Exp{K: "var", X: r.Intn(3)}, A: g.quietStmt(c, d-1), B: g.quietStmt(c, d-1)}
-		}
-		return &Stmt{K: "loglocals"}
-	}
-}
-
 func (g *gen) stmt(c gctx, d int) *Stmt {
 	r := g.r
-	if c.quiet {
-		return g.quietStmt(c, d)
-	}
 	if d <= 0 || g.budget <= 0 {
 		switch r.Pick(3, 2, 2, 1) {
 		case 0:
@@ -330,17 +285,10 @@ func (g *gen) stmt(c gctx, d int) *Stmt {
 			return &Stmt{K: "trycatch", A: g.block(c, d-1, 1+r.Intn(3)), B: g.block(c, d-1, 1+r.Intn(2))}
 		case 1:
 			g.tag("try-finally")
-			fc := c
-			fc.inFinally = true
-			fc.noReenter = true // recorded finding C09-N4 (host crash): a native call that throws inside a finally block run by return()
-			return &Stmt{K: "tryfinally", A: g.block(c, d-1, 1+r.Intn(3)), B: g.block(fc, d-1, 1+r.Intn(2))}
+			return &Stmt{K: "tryfinally", A: g.block(c, d-1, 1+r.Intn(3)), B: g.block(c, d-1, 1+r.Intn(2))}
 		default:
 			g.tag("try-catch-finally")
-			qc := c
-			qc.inFinally = true
-			qc.noReenter = true
-			qc.quiet = avoidA // finding C08-N1 (enterFinally keeps catchPos): avoided only on request during development
-			return &Stmt{K: "trycf", A: g.block(c, d-1, 1+r.Intn(3)), B: g.block(c, d-1, 1+r.Intn(2)), C: g.block(qc, d-1, 1+r.Intn(2))}
+			return &Stmt{K: "trycf", A: g.block(c, d-1, 1+r.Intn(3)), B: g.block(c, d-1, 1+r.Intn(2)), C: g.block(c, d-1, 1+r.Intn(2))}
 		}
 	case 8:
 		if c.inner > 0 {
@@ -348,9 +296,6 @@ func (g *gen) stmt(c gctx, d int) *Stmt {
 		}
 		return &Stmt{K: "return", E: g.anyExp(c, 2)}
 	case 9:
-		if c.inFinally {
-			return &Stmt{K: "loglocals"} // finding C09-N4: exceptions raised inside a finally block that return() is running
-		}
 		return &Stmt{K: "throw", E: &Exp{K: "add", A: &Exp{K: "const", Z: 500}, B: g.intExp(c, 1)}}
 	case 10:
 		if c.loop > 0 {
@@ -373,7 +318,7 @@ func (g *gen) stmt(c gctx, d int) *Stmt {
 		}
 		return &Stmt{K: "loglocals"}
 	case 13:
-		if !c.noReenter && !c.async {
+		if !c.async {
 			g.tag("reenter")
 			k := []string{"next", "throw", "return"}[r.Pick(3, 1, 1)]
 			return &Stmt{K: "reenter", Cmd: &Cmd{K: k, V: int64(70 + r.Intn(9))}}
@@ -390,7 +335,7 @@ func genCase(r *vh.Rng) (Case, []string) {
 	c.Cap = r.Chance(60)
 	if r.Chance(12) {
 		c.Kind = "async"
-		ctx := gctx{top: true, async: true, yieldInt: true, noReenter: true}
+		ctx := gctx{top: true, async: true, yieldInt: true}
 		c.Body = g.block(ctx, 3, 2+r.Intn(3))
 		g.budget = 3 + r.Intn(5)
 		c.Body2 = g.block(ctx, 2, 1+r.Intn(3))
@@ -415,27 +360,12 @@ func genCase(r *vh.Rng) (Case, []string) {
 	} else {
 		c.Kind = "gen"
 		ctx := gctx{top: true, yieldInt: true}
-		if r.Chance(20) {
-			ctx.allowBad = true
-			ctx.noReenter = true
-		}
 		c.Body = g.block(ctx, 3, 3+r.Intn(4))
 		n := 1 + r.Intn(6)
 		for i := 0; i < n; i++ {
 			k := []string{"next", "throw", "return"}[r.Pick(6, 2, 2)]
 			base := map[string]int64{"next": 10, "throw": 900, "return": 800}[k]
 			c.Ops = append(c.Ops, Cmd{K: k, V: base + int64(i), Shape: r.Intn(6)})
-		}
-		// recorded finding D: throw() into a finally block that was entered by return(); replayed from the corpus
-		if anySuspendInFinally(c.Body) {
-			seenReturn := false
-			for i := range c.Ops {
-				if c.Ops[i].K == "return" {
-					seenReturn = true
-				} else if c.Ops[i].K == "throw" && seenReturn {
-					c.Ops[i].K = "next"
-				}
-			}
 		}
 		c.Drive = "js"
 		if r.Chance(30) {
@@ -450,82 +380,6 @@ func genCase(r *vh.Rng) (Case, []string) {
 	}
 	sort.Strings(tags)
 	return c, tags
-}
-
-// does any finally block of the body or of an inner generator defined in it contain a suspension point?
-func anySuspendInFinally(body *Stmt) bool {
-	found := false
-	var ws func(s *Stmt)
-	var we func(e *Exp)
-	wsrc := func(x *Src) {
-		if x != nil {
-			we(x.Arg)
-			ws(x.Body)
-		}
-	}
-	we = func(e *Exp) {
-		if e == nil {
-			return
-		}
-		we(e.A)
-		we(e.B)
-		wsrc(e.S)
-	}
-	ws = func(s *Stmt) {
-		if s == nil {
-			return
-		}
-		var fin *Stmt
-		if s.K == "tryfinally" {
-			fin = s.B
-		} else if s.K == "trycf" {
-			fin = s.C
-		}
-		if fin != nil {
-			txt := string(vh.MustJSON(fin))
-			if strings.Contains(txt, `"k":"yield"`) || strings.Contains(txt, `"k":"ystar"`) {
-				found = true
-			}
-		}
-		we(s.E)
-		ws(s.A)
-		ws(s.B)
-		ws(s.C)
-		wsrc(s.S)
-	}
-	ws(body)
-	return found
-}
-
-// does the body (outside inner generator definitions) contain a suspension point inside a finally block?
-func suspendsInFinally(s *Stmt, inFin bool) bool {
-	if s == nil {
-		return false
-	}
-	e := func(x *Exp) bool { return inFin && expSuspends(x) }
-	switch s.K {
-	case "yield":
-		return inFin
-	case "ystar":
-		return inFin
-	case "forof":
-		return suspendsInFinally(s.A, inFin) || (inFin && s.S != nil && s.S.Arg != nil && expSuspends(s.S.Arg))
-	case "tryfinally":
-		return suspendsInFinally(s.A, inFin) || suspendsInFinally(s.B, true)
-	case "trycf":
-		return suspendsInFinally(s.A, inFin) || suspendsInFinally(s.B, inFin) || suspendsInFinally(s.C, true)
-	}
-	return e(s.E) || suspendsInFinally(s.A, inFin) || suspendsInFinally(s.B, inFin) || suspendsInFinally(s.C, inFin)
-}
-
-func expSuspends(x *Exp) bool {
-	if x == nil {
-		return false
-	}
-	if x.K == "yield" || x.K == "ystar" {
-		return true
-	}
-	return expSuspends(x.A) || expSuspends(x.B)
 }
 
 // ---------------------------------------------------------------------------------------------------------
@@ -971,7 +825,6 @@ func coqVals(l []interface{}) string {
 const failTerm = "CFail"
 
 var useNode bool
-var avoidA bool
 
 func runNode(script string) (string, error) {
 	cmd := exec.Command("node", "-e", script)
@@ -1124,9 +977,6 @@ func main() {
 	m := vh.ParseArgs()
 	if m.Args["node"] == "1" || os.Getenv("C09_NODE") == "1" {
 		useNode = true
-	}
-	if m.Args["avoidA"] == "1" || os.Getenv("C09_AVOID_A") == "1" {
-		avoidA = true
 	}
 	if m.Cmd == "js" { // development aid: print the script of the cases of a file
 		for _, raw := range vh.ReadCases(m.In) {
